@@ -134,10 +134,31 @@ def search(ctx, escalate=False):
                     fail("C19:integral-raises:%s:%s" % (cls_name, kind), "integral accepts scalars, arrays and Series",
                          exc=repr(e)[:120])
                     continue
+                # consistent with the property values: the closed form of the integral of v resp. s*T + o between b and a
+                ua, lb = np.asarray(mk(a), float), np.asarray(mk(b), float)
+                exact = v * (ua - lb) if cls_name == "const" else s / 2 * (ua ** 2 - lb ** 2) + o * (ua - lb)
+                if not np.allclose(iab, exact, rtol=1e-10, atol=1e-7):
+                    fail("C19:integral-value:%s:%s" % (cls_name, kind), "integral consistent with the property values", kind=kind,
+                         got=np.ravel(iab)[:2].tolist(), expected=np.ravel(exact)[:2].tolist())
                 if not np.allclose(iab, -iba, rtol=1e-10, atol=1e-9):
                     fail("C19:integral-antisymmetric:%s" % cls_name, "integral antisymmetric", kind=kind)
                 if not np.allclose(iab + ibc, iac, rtol=1e-10, atol=1e-7):
                     fail("C19:integral-additive:%s" % cls_name, "integral additive", kind=kind)
+            # mixed argument kinds (upper limit of one kind, lower of another)
+            kinds = {"float": lambda z: z, "array": lambda z: np.array([z, z + 1.0]), "series": lambda z: pd.Series([z, z + 1.0])}
+            for ku, kl in (("array", "series"), ("series", "array"), ("series", "float"), ("float", "series"), ("array", "float")):
+                n += 1
+                try:
+                    got = np.asarray(prop.get_at_integral_value(kinds[ku](a), kinds[kl](b)), float)
+                except Exception as e:
+                    fail("C19:integral-raises:%s:%s-%s" % (cls_name, ku, kl), "integral accepts scalars, arrays and Series",
+                         exc=repr(e)[:120])
+                    continue
+                ua, lb = np.asarray(kinds[ku](a), float), np.asarray(kinds[kl](b), float)
+                exact = v * (ua - lb) if cls_name == "const" else s / 2 * (ua ** 2 - lb ** 2) + o * (ua - lb)
+                if got.shape != np.broadcast(ua, lb).shape or not np.allclose(got, exact, rtol=1e-10, atol=1e-7):
+                    fail("C19:integral-value:%s:%s-%s" % (cls_name, ku, kl), "integral consistent with the property values",
+                         got=np.ravel(got)[:2].tolist(), expected=np.ravel(exact)[:2].tolist())
     # mixtures
     for _ in range(reps):
         k = int(rng.integers(2, 6))
